@@ -53,7 +53,9 @@ def replay(ctx: Ctx, recs: List[Dict[str, Any]]) -> None:
     groups: Dict[str, List[Dict[str, Any]]] = defaultdict(list)
     for r in recs:
         groups[json.dumps([r["kind"], r["call"], r["strike"], r["start"], r["ops"], len(r["path"])])].append(r)
+    reused: Dict[Any, Any] = {}          # one long-lived derivative object per (kind, T, dtype): its contract terms are edited in place
     for gk, rs in groups.items():
+        rs = sorted(rs, key=lambda r: r["path"])
         r0 = rs[0]
         kind, call, K, start, ops, T = r0["kind"], r0["call"], frf(r0["strike"]), r0["start"], r0["ops"], len(r0["path"])
         for dtype in (torch.float64, torch.float32):
@@ -125,6 +127,27 @@ def replay(ctx: Ctx, recs: List[Dict[str, Any]]) -> None:
                     ctx.violation("payoff:clause-registry", f"named_clauses() order {names} differs from registration order {[c[0] for c in r0['registered']]}", {"ops": ops})
             if not torch.equal(stock.spot, keep):
                 ctx.violation(f"payoff:{kind}:class-mutates", "payoff() modified the underlier's spot buffer", {})
+            # the same derivative OBJECT with its contract terms changed between payoff() calls (no re-simulation)
+            if not ops:
+                key = (kind, T, dtype)
+                if key not in reused:
+                    st2 = BrownianStock(dt=DT, dtype=dtype)
+                    st2.register_buffer("spot", keep.clone())
+                    reused[key] = (st2, classes[kind](st2, **kw))
+                st2, d2 = reused[key]
+                if torch.equal(st2.spot, keep):
+                    d2.strike = K
+                    if "call" in kw:
+                        d2.call = call
+                    if kind == "forward_start":
+                        d2.start = start * DT
+                    po2 = d2.payoff()
+                    ctx.count(n=len(rs))
+                    bad = ~((po2.double() - exp_fn).abs() <= tol * (1 + exp_fn.abs()))
+                    if bool(bad.any()):
+                        i = int(bad.nonzero()[0])
+                        ctx.violation(f"payoff:{kind}:stale-after-contract-change", f"{classes[kind].__name__}.payoff() does not follow the contract terms set on the object (strike/call/start changed since the previous call)",
+                                      {"path": rs[i]["path"], "strike": r0["strike"], "call": call, "start": start, "expected": exp_fn[i].item(), "observed": po2[i].item()})
 
 
 def check(ctx: Ctx) -> None:
